@@ -727,12 +727,18 @@ impl<'a> Model<'a> {
                     // We displace the end
                     let mut new_column = col.clone();
                     new_column.max = max - column_count;
-                    new_columns.push(new_column);
+                    // nothing is left if the whole range was deleted
+                    if new_column.min <= new_column.max {
+                        new_columns.push(new_column);
+                    }
                 } else {
                     // Case E
                     let mut new_column = col.clone();
                     new_column.max = column_start - 1;
-                    new_columns.push(new_column);
+                    // nothing is left if the deletion starts at the first column of the range
+                    if new_column.min <= new_column.max {
+                        new_columns.push(new_column);
+                    }
                 }
             } else {
                 // Case F
